@@ -298,6 +298,50 @@ def _check_moved(case):
         shutil.rmtree(d, ignore_errors=True)
 
 
+STATUS_SOURCES = {
+    'clean': ('def f(a=1):\n    "doc"\n', 0, 0),
+    'bad-signature': ('def f(a="x\\xa0y"):\n    "A default that cannot be rendered (no-break space)."\n', 2, 3),
+    'bad-constant': ('from typing import Final\nC: Final = "x\\xa0y"\n"doc"\n', 2, 3),
+    'bad-decorator': ('def deco(*a):\n    return lambda f: f\n@deco("x\\xa0y")\ndef f():\n    "doc"\n', 2, 3),
+    'bad-class-signature': ('from typing import Generic, TypeVar\nclass Base: pass\nclass K(Base, metaclass=type):\n    "doc"\n', 0, 0),
+    'bad-docstring': ('def f():\n    """Unbalanced { brace."""\n', 2, 3),
+    'unresolved-link-only': ('def f():\n    """See L{nowhere}."""\n', 0, 3),
+}
+
+
+def _status_cases(tier, seed):
+    for name in STATUS_SOURCES:
+        yield {'status': name, 'warnings_as_errors': False}
+        yield {'status': name, 'warnings_as_errors': True}
+
+
+def _check_status(case):
+    """exit status: 2 without -W exactly when a docstring or a displayed expression could not be parsed / rendered, 3 with -W exactly when
+    something was reported, 0 otherwise"""
+    from pydoctor import driver
+    src, want_plain, want_w = STATUS_SOURCES[case['status']]
+    d = tempfile.mkdtemp(prefix='c16.', dir='/var/tmp')
+    try:
+        os.makedirs(os.path.join(d, 'st'))
+        with open(os.path.join(d, 'st', '__init__.py'), 'w', encoding='utf-8') as f:
+            f.write(src)
+        out = io.StringIO()
+        argv = ['--html-output', os.path.join(d, 'out'), '--project-name', 'p', os.path.join(d, 'st')] + (['-W'] if case['warnings_as_errors'] else [])
+        with contextlib.redirect_stdout(out), contextlib.redirect_stderr(io.StringIO()):
+            try:
+                rc = driver.main(argv)
+            except SystemExit as ex:
+                rc = ex.code
+        want = want_w if case['warnings_as_errors'] else want_plain
+        if rc != want:
+            msgs = [l for l in out.getvalue().splitlines() if re.match(r'.*?:(\d+|\?\?\?): ', l)]
+            return {'observed': f'{case["status"]}: exit status {rc} ({"with" if case["warnings_as_errors"] else "without"} -W); messages: {[m_[-60:] for m_ in msgs][:3]}',
+                    'required': f'{want}', 'class': 'exit-status:' + case['status']}
+        return None
+    finally:
+        shutil.rmtree(d, ignore_errors=True)
+
+
 def _special_cases(tier, seed):
     for fmt in ('epytext', 'restructuredtext'):
         for k in ((0, 3) if tier == 'quick' else (0, 1, 3, 7)):
@@ -373,6 +417,9 @@ def _check_special(case):
 
 
 HARNESS = {
+    'pydoctor/templatewriter/pages/__init__.py:format_signature': {'cases': _status_cases, 'check': _check_status,
+        'covers': ['pydoctor/epydoc2stan.py:format_constant_value', 'pydoctor/templatewriter/pages/__init__.py:format_decorators'],
+        'bound': '7 one-module projects (clean, unrenderable signature / constant / decorator, bad docstring, unresolved link) x {-W, no -W}: the exit status of a real run'},
     f'{E}:parse_docstring': {'cases': _special_cases, 'check': _check_special,
         'covers': ['pydoctor/astbuilder.py:ModuleVistor._handlePropertyDef', 'pydoctor/linker.py:_EpydocLinker.look_for_name'],
         'bound': 'a property documented by fields only, a docstring with a markup problem inherited across modules, a name two sibling modules define; '
